@@ -822,8 +822,10 @@ PROPS["C11"] = {
                   "Database.to_hdf(append=True) only AFTER its own handle is closed and leaves the file listing the database; BaseScenario._execute_backup_callback "
                   "= that export in APPEND mode: when the listener returns the file lists exactly the points 0..n-1 of the database in order, every point with as "
                   "many names as it has outputs, buffer emptied, handle closed; BackupInvariantLemmas: the precondition R of the callback holds initially (absent / "
-                  "erased / empty file), is preserved by every Database.store (any number of stores between two notifications) and restored by the export - under the "
-                  "named hypothesis that the per-point records only list names of their points. Two clauses FAIL on the pinned tree and are known findings, each "
+                  "erased / empty file), is preserved by every Database.store (any number of stores between two notifications) and restored by the export (to_file@c12 also proves, "
+                  "through @c12 variants of __add_hdf_output_dataset / __create_hdf_input_output / __append_hdf_output, that the record of every exported point only lists names "
+                  "of that point - its own per-point history precondition - so the induction uses proved postconditions only). Database.from_hdf: a NEW database "
+                  "(constructor model) holding exactly the file's points in file order. Two clauses FAIL on the pinned tree and are known findings, each "
                   "proved outside its region and replayed on real files (contracts/rt_c12.py): set_optimization_history_backup@file 'the first export starts from an "
                   "empty file or one listing the database' (region existing-file-neither-erased-nor-loaded) and BaseScenario.execute 'after a run that recorded "
                   "new points the file lists the database, nothing pending' (region database-empty-before-the-run: guard `0 < n_x < n_x_a`).",
@@ -845,7 +847,7 @@ PROPS["C11"] = {
         "backup path names the modelled file (Path.exists / unlink = ghost h5_file_exists; an absent file has no content); ASSUMED thin summaries: the description "
         "block of OptimizationProblem.to_hdf (checked on the AST to mention neither the database nor the groups x/k/v), BaseScenario.set_algorithm, "
         "Database.get_x_vect, and the run BaseMonitoredProcess._execute_monitored (database only grows; export preconditions preserved - the statement of "
-        "BackupInvariantLemmas, whose hypothesis `records_history` is not a proved postcondition of to_file)",
+        "BackupInvariantLemmas), DesignSpace.from_file inside Database.from_hdf, the constructor model Database(name, input_space) = empty database without listeners",
         "history preconditions (derived from the call sites Database.store -> add_pending_array and to_file): between two exports to the same node the database only "
         "grows - new points are appended, new names are added at existing points, no deletion / re-ordering / overwrite of an exported name "
         "(Database.clear*, filter, remove_empty_entries, __delitem__ are excluded); stated as `requires` history:* of __get_missing_hdf_output_dataset / __append_hdf_output",
@@ -890,7 +892,9 @@ PROPS["C11"] = {
     "not_covered": ["content clauses of HDFDatabase.update_from_file (names/values of each reloaded point) and the file-level per-point content invariant of to_file (index level proved; values: bounded stand-in only)",
                     "Database.input_space / DesignSpace.to_hdf inside to_file (assumed to leave x, k, v untouched)",
                     "DesignSpace.to_csv / get_pretty_table (PrettyTable text layer) and hence the text round-trip lemma, from_csv with an explicit header argument, files with duplicate header fields, "
-                    "DesignSpace.to_hdf/from_hdf/to_file/from_file (bounded stand-in only), OptimizationProblem.to_hdf/from_hdf", "HDF5Cache itself (hash index read_hashes, behavioural subtyping of _read_data/_write_data against BaseFullCache's storage specification, update_file_format); only its file handler HDF5FileSingleton is under contract", "HDF5 library / file-system behaviour, complex values (imaginary part dropped by __to_real), "
+                    "DesignSpace.to_hdf/from_hdf/to_file/from_file (bounded stand-in only), OptimizationProblem.from_hdf and the description groups written by OptimizationProblem.to_hdf "
+                    "(assumed thin summary; its x/k/v part is proved)", "backup: the state of the file when the process dies INSIDE an export (between h5py.File(..) and the end of the `with` "
+                    "block: C12 not applicable), Database.clear* / clear_history_before_execute between two exports, values of the reloaded entries after a restart", "HDF5Cache itself (hash index read_hashes, behavioural subtyping of _read_data/_write_data against BaseFullCache's storage specification, update_file_format); only its file handler HDF5FileSingleton is under contract", "HDF5 library / file-system behaviour, complex values (imaginary part dropped by __to_real), "
                     "non-ASCII output names (numpy.array(.., dtype=bytes_) raises UnicodeEncodeError: export fails)", "hash collisions in the pending buffer"],
 }
 
@@ -1055,22 +1059,34 @@ PROPS["C19"] = {
                   "ASSUMED marginal axioms (icdf(cdf(x)) = x on the support, cdf(icdf(u)) = u on (0,1), monotone, values in [0,1] / in the support): the joint inverse CDF undoes "
                   "the joint CDF component-wise (and conversely), CDF values are probabilities, and untransform_vect(transform_vect(x)) recovers every component of every "
                   "variable block of x (uncertain: marginal axioms; deterministic: the C02 bijection), the transformed uncertain components lying in [0, 1] as untransform_vect "
-                  "demands. KNOWN FINDING (known_findings.json): normalize_vect / unnormalize_vect never forward `minus_lb` (normalize_grad / unnormalize_grad of a ParameterSpace are "
-                  "wrong); the clauses are proved for minus_lb=True.",
+                  "demands; (f) registration: add_random_vector WITHOUT distribution parameters (variant default-parameters, verified) and add_random_variable (verified against the "
+                  "add_random_vector summary): the vector is appended last to uncertain_variables and to the design variables (orders kept), one float component per marginal, its "
+                  "joint distribution (size marginals of the named class) is registered under its name, the design variable gets the SUPPORT the distribution reports as bounds and "
+                  "the MEAN it reports as current value, the joint distribution of ALL uncertain variables is rebuilt from exactly the final uncertain variables in order, and the "
+                  "design-space and parameter-space invariants hold afterwards (this ESTABLISHES the invariant assumed by the transformations); remove_variable rebuilds that joint "
+                  "distribution from exactly the remaining uncertain variables; (g) compute_samples: the n x d matrix of exactly ONE draw from the joint distribution of all uncertain "
+                  "variables, and with as_dict one dictionary per row whose keys are exactly the uncertain variables, each entry being the block of its variable laid out along "
+                  "uncertain_variables in order. REPAIRED in /repo bc82ce9 (found here): normalize_vect / unnormalize_vect dropped `minus_lb` (normalize_grad / unnormalize_grad of a "
+                  "ParameterSpace were wrong); the deterministic blocks are now proved to be those of the design-space map WITH THE GIVEN minus_lb. KNOWN FINDING "
+                  "(known_findings.json, region last-uncertain-variable-removed): remove_variable leaves `distribution` describing the removed variable when the LAST uncertain "
+                  "variable is removed (compute_samples still samples it).",
     "level_note": "Trusted: pyvc, z3 (floats read as reals; infinite bounds are tags), pyvc/plug_c19.py. ASSUMED - this IS the third-party part: a wrapped SciPy / OpenTURNS "
                   "distribution object is an abstract record; cdf / ppf / pdf / mean / std / interval (computeCDF / computeQuantile / computePDF / getMean / getStandardDeviation / "
                   "getRange) are deterministic uninterpreted functions of the object and the argument without side effect; every sampler call (rvs / getSample) returns a new array of the "
                   "requested size that is not a function of the arguments; creation returns an object made from exactly (library, name, parameters) or raises; the inverse / monotony / "
                   "range axioms of the marginals are HYPOTHESES of the lemmas, nowhere proved. ASSUMED callee summaries (listed in the evidence): "
                   "_create_distribution_from_module, OTDistribution.__transform_distribution / __truncate_distribution (string formatting, comparisons with infinite bounds), "
-                  "ParameterSpace.build_joint_distribution (nested comprehension), split_array_to_dict_of_arrays / concatenate_dict_of_arrays_to_array (abstract blocks c19_block / "
+                  "ParameterSpace.build_joint_distribution (nested comprehension; what the joint was built from is recorded in ghosts), add_random_vector for ARBITRARY "
+                  "distribution parameters (same clauses as the verified default-parameter variant: the parameters only select the marginals), __get_random_vector_size, "
+                  "DesignSpace.add_variable on a parameter space (C02 postcondition + ParameterSpace fields untouched + the given bounds / value recorded in ghosts), distribution "
+                  "classes as abstract values (factory, cls(), cls.JOINT_DISTRIBUTION_CLASS(marginals), cls.__name__[0:2]), the sampler of the joint distribution of all "
+                  "uncertain variables (new n x d matrix, ghost record), the update of __uncertain_variables_to_definitions is skipped, split_array_to_dict_of_arrays / concatenate_dict_of_arrays_to_array (abstract blocks c19_block / "
                   "c19_concatenate relative to the ghost layout c19_variable_size = sizes of the variables of the entry state; their mutual-inverse algebra is a hypothesis of the "
                   "round-trip lemma), DesignSpace.normalize_vect / unnormalize_vect at this level (uninterpreted functions of variables, policies, flag, minus_lb and the vector; their "
                   "component-wise content and bijectivity are proved under C02; the cached normalisation data they refresh are not part of the state modelled here), the C02 "
                   "postcondition of DesignSpace.remove_variable on a parameter space (proved under C02 on the same body; what is proved here is that the body does not touch the "
                   "ParameterSpace fields). A joint distribution / marginal held by a parameter space is an abstract record honouring the contracts verified for the joint / wrapper "
-                  "classes (behavioural subtyping). Vectors are rank-1 (one point); LOGGER calls are skipped. OBSERVATIONS (not clauses, see the report): remove_variable leaves "
-                  "`distribution` (the joint of all uncertain variables) STALE when the last uncertain variable is removed - compute_samples still samples the removed variable; the "
+                  "classes (behavioural subtyping). Vectors are rank-1 (one point); LOGGER calls are skipped. OBSERVATIONS (not clauses, see the report): the "
                   "forward evaluate_cdf silently truncates a block whose length differs from the number of marginals (zip), only the inverse direction checks sizes; "
                   "unnormalize_vect(use_dist=True) ignores `out`.",
     "design_ref": "DESIGN.md §4 C19",
@@ -1083,7 +1099,7 @@ PROPS["C19"] = {
                     "gives the blocks back (hypotheses S1 / A1 of the round-trip lemma)",
                     "DesignSpace.normalize_vect / unnormalize_vect act component-wise on each block and are mutually inverse (hypothesis DC of the round-trip lemma; proved in C02 for lb < ub and "
                     "for unbounded components, without integer rounding)",
-                    "parameter-space invariant (precondition of the transformations and of remove_variable, preserved by remove_variable; its establishment by add_random_vector is NOT verified): "
+                    "parameter-space invariant (precondition of the transformations, remove_variable, add_random_*; established / preserved by add_random_vector@default-parameters, add_random_variable, remove_variable): "
                     "every uncertain variable is a design variable with a joint distribution of as many marginals as the variable has components, no name listed twice",
                     "x_vect / vector is a rank-1 array; out is None"],
     "not_covered": ["numerical values of cdf / ppf / moments of any law, their mutual inverseness and monotony in floating point, samples lying in the reported support, analytical moments vs reported "
@@ -1091,11 +1107,12 @@ PROPS["C19"] = {
                     "empirical statistics (gemseo.uncertainty.statistics), fitting, Dirac / Weibull / log-normal named distributions (string selection, exp / log), ALL named OpenTURNS-based classes "
                     "and OTDistribution.__init__ (heterogeneous **options forwarding is outside the engine's subset), OTDistribution.__truncate_distribution's ValueError conditions (comparisons "
                     "with infinite support bounds)",
-                    "ParameterSpace.add_random_variable / add_random_vector (factory, per-component parameter broadcasting, class objects as values): hence that a variable is registered with the "
-                    "distribution's support as bounds and its mean as current value, and the establishment of the parameter-space invariant; add_variables_from, rename_variable, "
+                    "add_random_vector WITH distribution parameters / interfaced distributions (per-component broadcasting of the parameter collections, distribution_class(**kwargs), textual "
+                    "definitions: assumed summary), that the stored bounds of the design variable equal the given vectors numerically (C02 link level), add_variables_from, rename_variable, "
                     "init_from_dataset, to_design_space, extract_uncertain_space / extract_deterministic_space (DesignSpace.filter / deep copy), __getitem__ / __setitem__, tabular views",
-                    "ParameterSpace.compute_samples, BaseJointDistribution.compute_samples, OTJointDistribution.compute_samples, joint _create_distribution (comprehensions with third-party "
-                    "side effects, OpenTURNS ComposedDistribution / copulas); that remove_variable rebuilds the joint distribution of all uncertain variables from the remaining ones",
+                    "BaseJointDistribution.compute_samples, OTJointDistribution.compute_samples, joint _create_distribution (comprehensions with third-party side effects, OpenTURNS "
+                    "ComposedDistribution / copulas); that the number of columns of compute_samples is the sum of the sizes of the uncertain variables and that its columns follow the "
+                    "variables (property of the joint distribution built by the assumed build_joint_distribution)",
                     "rank-2 batches in evaluate_cdf / transform_vect (list(map(compute, rows))), the `out` argument",
                     "the block algebra of the conversion utilities and the length of the transformed vector (assumed, see assumptions)"],
 }
